@@ -33,7 +33,7 @@ LEVEL_TEXT = ("Coq theorems about a cost semantics of the solver: each modulo() 
               "(proved equal to the length of the lists the model enumerates), residue sets never exceed the divisor, every repetition count behaves "
               "exactly like one below 2*divisor (answer AND cost), hence enumeration cost is independent of capacities/extents for whole trees "
               "(clamp theorem). The runner logs every modulo()/expand() call of the implementation while reading and querying definitions swept "
-              "over 2**1..2**63 and Coq checks every logged call against the cost model; totals must be identical across the sweep beyond 2**8 "
+              "over 2**1..2**63 and Coq checks every logged call against the cost model; totals must be identical across the sweep from 2**16 on "
               "and expand() must never run. Real time and memory are not modelled (partial).")
 LEVEL_NOTE = "Trusted: Coq kernel + vm_compute; monitor by monkey-patching; only the logical core (what is enumerated) is proved, not wall time."
 TECHNIQUE = "Coq proof of a cost semantics (closed-form enumeration counts, count clamping) + instrumented correspondence of every modulo()/expand() call"
@@ -260,8 +260,10 @@ def run_impl(cases):
                 break
             variants.append({"cap": cap, "total": mon.total, "expands": mon.expands, "calls": mon.calls, "elapsed": round(elapsed, 3)})
         ob = {"variants": variants}
-        # totals must not depend on the capacity scale once it exceeds twice the largest divisor in use (64)
-        big = [v["total"] for v in variants if v["cap"] >= 2 ** 8]
+        # totals must not depend on the capacity scale once it exceeds twice the largest divisor in use AND the implicit
+        # length prefixes have the same residues: capacity 2**8 has a 16-bit prefix (16 mod 32 != 0), capacities from 2**16 on
+        # have 32- or 64-bit prefixes (both 0 modulo every divisor in use), so only those instances are comparable
+        big = [v["total"] for v in variants if v["cap"] >= 2 ** 16]
         if len(set(big)) > 1:
             fail = "enumeration count depends on capacity: %s" % [(v["cap"], v["total"]) for v in variants]
         if any(v["expands"] for v in variants):
